@@ -50,7 +50,7 @@ pub fn run(out: &mut Out, thorough: bool, seed: u64, _extra: &[String]) {
         let scheme = [SchemeType::BFV, SchemeType::BGV, SchemeType::CKKS][pi % 3];
         let lg = r.range(2, 4) as usize; let n = 1usize << lg;
         let fam1 = scheme != SchemeType::CKKS && (pi / 3) % 2 == 1;     // family with a prime that is 1 mod t (three data levels)
-        let bits: Vec<usize> = (0..(if fam1 { 4 } else { r.range(3, 4) as usize })).map(|_| *r.pick(&[40usize, 50, 59])).collect();
+        let bits: Vec<usize> = (0..(if fam1 { 4 } else { r.range(3, 4) as usize })).map(|_| *r.pick(&[40usize, 50, 59, 60])).collect();
         let qs = match pick_primes(&mut r, n, &bits) { Some(v) => v, None => continue };
         let t = if scheme == SchemeType::CKKS { 0 } else { pick_plain(&mut r, n, 0, &qs) };
         // every other BFV/BGV parameter set has a middle prime that is 1 modulo t (dropping it leaves the BGV correction factor unchanged)
@@ -93,6 +93,22 @@ pub fn run(out: &mut Out, thorough: bool, seed: u64, _extra: &[String]) {
             results.push(("mod_switch_prod".into(), ev.mod_switch_to_next_new(&prod)));
         }
         if scheme == SchemeType::BFV { let nt = ev.transform_to_ntt_new(&c1); results.push(("from_ntt".into(), ev.transform_from_ntt_new(&nt))); results.push(("to_ntt".into(), nt)); }
+        // multiply_plain converts between representations by itself: every combination (ciphertext coefficient / NTT form x plaintext
+        // coefficient / NTT form) must return a VALID ciphertext (canonical residues), several times (the reductions inside are data dependent)
+        if scheme != SchemeType::CKKS {
+            for rep2 in 0..3 {
+                let m = rand_msg(&mut r, n, t); let pc = plain_of(&m);
+                let cbase = if rep2 == 0 { c1.clone() } else { s.encryptor.encrypt_new(&plain_of(&rand_msg(&mut r, n, t))) };
+                let pn = { let mut x = pc.clone(); ev.transform_plain_to_ntt_inplace(&mut x, cbase.parms_id()); x };
+                let (cc, cn) = if cbase.is_ntt_form() { (ev.transform_from_ntt_new(&cbase), cbase.clone()) } else { (cbase.clone(), ev.transform_to_ntt_new(&cbase)) };
+                for (cn_, ct_) in [("coef", &cc), ("ntt", &cn)] { for (pn_, pt_) in [("coef", &pc), ("ntt", &pn)] {
+                    match std::panic::catch_unwind(std::panic::AssertUnwindSafe(|| ev.multiply_plain_new(ct_, pt_))) {
+                        Ok(res) => results.push((format!("multiply_plain-ct{}-pt{}-{}", cn_, pn_, rep2), res)),
+                        Err(_) => out.raw(&format!("!NOTE multiply_plain {} ct-{} x plain-{} refused", sn, cn_, pn_)),
+                    }
+                } }
+            }
+        }
         for (nm, c) in &results { valid_line(out, &s, c, "r", &format!("{}-{}", sn, nm)); }
         // every result is accepted by a subsequent operation
         for (nm, c) in &results { if refused(std::panic::AssertUnwindSafe(|| { let _ = ev.negate_new(c); })) { out.raw(&format!("!FAIL accepted_by_next {} {} :: a result of a public operation was refused by negate # next", sn, nm)); } else { out.raw(&format!("!OK accepted_by_next {} {} # next", sn, nm)); } }
